@@ -61,7 +61,7 @@ def restPhases (cfg : Cfg) (ord : List Path) (rs skc : Bool) (s1 s2 : List Chr) 
 
 theorem phases_eq (cfg : Cfg) (ord : List Path) (rs sk : Bool) (s1 s2 : List Chr) :
     phases fixed cfg ord rs sk s1 s2 =
-      .seq (paramsStage rs) :: .seq (refStage fixed cfg rs) :: restPhases cfg ord rs (sk || cfg.fromSaves) s1 s2 := by
+      .seq (paramsStage fixed rs) :: .seq (refStage fixed cfg rs) :: restPhases cfg ord rs (sk || cfg.fromSaves) s1 s2 := by
   simp [phases, restPhases, fixed, unalOK]
 
 /-- from a state satisfying the invariant, everything after `.params` completes **for every pair of schedules**,
